@@ -7,15 +7,18 @@ EXTENDS Naturals, Sequences, FiniteSets, TLC, PoolOps
 
 CONSTANTS StoredSets,   \* the sets of stored nodes to explore
           MaxBatches, MaxRuns,
-          KeepForm      \* TRUE: removing a store must leave a set of the stated form
+          KeepForm,     \* TRUE: removing a store must leave a set of the stated form
+          WithSave      \* TRUE: on-disk pools - Save / StaleOpen enabled
 VARIABLES stores,     \* node -> (batch index -> value)     (the pool)
           ver,        \* version of the deterministic nodes S, d
-          nruns, lastRun, lastVer, ranLog
-vars == <<stores, ver, nruns, lastRun, lastVer, ranLog>>
+          nruns, lastRun, lastVer, ranLog,
+          saved       \* on-disk pools: node -> batch indices in the last pickled view (save / close), or NoSave
+vars == <<stores, ver, nruns, lastRun, lastVer, ranLog, saved>>
+NoSave == [n \in {"_none"} |-> {}]
 Req == {"d", "t1", "t2"}          \* what Rejection requests: discrepancy + parameters
 
 Init == /\ \E st \in StoredSets : stores = [n \in st |-> <<>>]
-        /\ ver = [n \in {"S", "d"} |-> 0] /\ nruns = 0 /\ lastRun = <<>> /\ lastVer = ver /\ ranLog = {}
+        /\ ver = [n \in {"S", "d"} |-> 0] /\ nruns = 0 /\ lastRun = <<>> /\ lastVer = ver /\ ranLog = {} /\ saved = NoSave
 
 \* one inference run consuming batches 0..k-1
 RECURSIVE DoRun(_, _, _, _, _)
@@ -26,12 +29,12 @@ DoRun(st, i, k, res, ran) ==
              ran \cup {<<n, i, i \in DOMAIN (IF n \in DOMAIN st THEN st[n] ELSE <<>>)>> : n \in b.ran})
 Run(k) == /\ nruns < MaxRuns /\ LET r == DoRun(stores, 0, k, <<>>, {}) IN
              stores' = r[1] /\ lastRun' = r[2] /\ ranLog' = r[3]
-          /\ nruns' = nruns + 1 /\ lastVer' = ver /\ UNCHANGED ver
+          /\ nruns' = nruns + 1 /\ lastVer' = ver /\ UNCHANGED <<ver, saved>>
 \* the stated form of a stored set: the simulator and/or anything computed from it, optionally with ALL parameters
 StatedForm(S) == (S \cap {"sim", "S", "d"} # {}) /\ (S \cap {"t1", "t2"} \in {{}, {"t1", "t2"}})
 RemoveStore(n) == /\ n \in DOMAIN stores /\ (KeepForm => StatedForm(DOMAIN stores \ {n}))
                   /\ stores' = [m \in DOMAIN stores \ {n} |-> stores[m]]
-                  /\ UNCHANGED <<ver, nruns, lastRun, lastVer, ranLog>>
+                  /\ saved' = NoSave /\ UNCHANGED <<ver, nruns, lastRun, lastVer, ranLog>>
 \* pool.add_store(n): an empty store for a node (e.g. one that was removed before); it fills up as batches are consumed
 AddStore(n) == /\ n \in NodeSet \ DOMAIN stores /\ (KeepForm => StatedForm(DOMAIN stores \cup {n}))
                \* only for pools that do not store parameters: with parameters loaded for a batch, a node of that
@@ -40,12 +43,21 @@ AddStore(n) == /\ n \in NodeSet \ DOMAIN stores /\ (KeepForm => StatedForm(DOMAI
                \* without this guard)
                /\ {"t1", "t2"} \cap DOMAIN stores = {}
                /\ stores' = [m \in DOMAIN stores \cup {n} |-> IF m = n THEN <<>> ELSE stores[m]]
-               /\ UNCHANGED <<ver, nruns, lastRun, lastVer, ranLog>>
+               /\ saved' = NoSave /\ UNCHANGED <<ver, nruns, lastRun, lastVer, ranLog>>
 \* the user replaces a downstream node; a stored node that was replaced must be dropped from the pool
 Replace(n) == /\ n \in {"S", "d"} /\ n \notin DOMAIN stores /\ ver[n] < 1
               /\ (n = "S" => "d" \notin DOMAIN stores)
-              /\ ver' = [ver EXCEPT ![n] = ver[n] + 1] /\ UNCHANGED <<stores, nruns, lastRun, lastVer, ranLog>>
+              /\ ver' = [ver EXCEPT ![n] = ver[n] + 1] /\ UNCHANGED <<stores, nruns, lastRun, lastVer, ranLog, saved>>
+\* ArrayPool.save / close pickles the stores (each with its number of batches); the data files keep growing afterwards
+Save == /\ WithSave /\ nruns > 0 /\ saved # [n \in DOMAIN stores |-> DOMAIN stores[n]] /\ saved' = [n \in DOMAIN stores |-> DOMAIN stores[n]]
+        /\ UNCHANGED <<stores, ver, nruns, lastRun, lastVer, ranLog>>
+\* ArrayPool.open from a pickle older than the data (used further, not saved again): the pool makes available the
+\* batches it had when it was saved; later batches are written over the orphaned rows in place
+StaleOpen == /\ WithSave /\ saved # NoSave
+             /\ stores' = [n \in DOMAIN stores |-> [j \in saved[n] |-> stores[n][j]]]
+             /\ UNCHANGED <<ver, nruns, lastRun, lastVer, ranLog, saved>>
 Next == (\E k \in 1..MaxBatches : Run(k)) \/ (\E n \in NodeSet : RemoveStore(n) \/ AddStore(n)) \/ (\E n \in {"S", "d"} : Replace(n))
+        \/ Save \/ StaleOpen
 Spec == Init /\ [][Next]_vars
 
 \* (a) same results as the pool-free run
